@@ -229,7 +229,7 @@ def r7_recurse_call_shapes(ctx):
 
     n0 = len(ctx.obs)
     law_call_shapes(ctx)
-    ctx.obs[n0:] = [o for o in ctx.obs[n0:] if "starred-call_next" not in o.construct and "bare-call_next" not in o.construct]
+    ctx.obs[n0:] = [o for o in ctx.obs[n0:] if "call_next" not in o.construct]
 
 
 def _more(name):
